@@ -114,9 +114,8 @@ Proof. exact walk_complete_chain_lemma. Qed.
    and the meta tile owning it is not NONE for the coverage, that lies at least 1/10 pixel of level 0 inside the start
    rectangle (the coverage extent) and, for k < L, at least 1/10 pixel of level k+1 inside its level-k meta tile.
    Then the meta tile owning the point at the seeded level L is handed to the workers.
-   NOT proved: walk_complete_nested (for factor-2 pyramids the last premise is unnecessary because the edges of a
-   meta tile are tile edges of the next level); the 1/10-pixel premises are what the code's inset really loses on
-   irregular pyramids and at the border of the coverage extent. *)
+   For nested pyramids the last premise is not needed: walk_complete_nested below.  The 1/10-pixel premises are what the
+   code's inset really loses on irregular pyramids and at the border of the coverage extent. *)
 Theorem walk_complete_interior :
   forall g msx msy cov skipk levels root px py L,
     geo_wf g msx msy -> levels_wf g levels -> In L levels ->
@@ -251,3 +250,22 @@ Theorem pool_stop_drains :
     Forall (fun w => w = WExited) (pw p1) ->
     incl (done ++ busy T ws ++ ts) (pdone p1).
 Proof. exact pool_stop_drains_lemma. Qed.
+
+(* walk_complete_nested (DESIGN.md): on a pyramid in which every resolution is an integer multiple of the next one (factor 2
+   grids; any meta size, both origins, any extent) no interiority with respect to tiles is needed.  A point that lies at
+   least 1/10 pixel of level 0 inside the start rectangle (the coverage extent), and whose tile at every level k <= L is a
+   tile of the grid whose meta tile is not NONE for the coverage, has its meta tile of the seeded level L handed to the
+   workers - also when the point lies exactly on tile edges.  (Proof: every side of the rectangle the walk descends into is
+   either at least 1/10 pixel away from the point or a tile edge of the current level on the right side of the point;
+   limit_sub_bbox and the step to the next level preserve this, and it implies selection by get_affected_level_tiles,
+   including the centre-line rule for rectangles thinner than 2/10 pixel.) *)
+Theorem walk_complete_nested :
+  forall g msx msy cov skipk levels root px py L,
+    geo_wf g msx msy -> levels_wf g levels -> In L levels ->
+    (forall k, 0 <= k <= L ->
+               valid_level g k = true /\ point_in_grid g px py k /\
+               cov (meta_bbox g msx msy (point_meta g msx msy px py k)) <> 0) ->
+    inset root (res_at g 0 / 10) px py ->
+    (forall k, 0 <= k < L -> exists c, 0 < c /\ res_at g k = c * res_at g (k + 1)) ->
+    In (point_meta g msx msy px py L) (procs (geo_walk g msx msy cov skipk levels root None)).
+Proof. exact walk_complete_nested_lemma. Qed.
